@@ -182,7 +182,7 @@ impl Prop for C01Prop {
         "C01"
     }
     fn rule(&self) -> String {
-        "Cases are (evaluator, input string, placeholder). Enumerated exhaustively: every sequence of <=3 pieces over each evaluator's complete vocabulary (+literal pool, foreign tokens), <=4 (quick) / <=5 (thorough) over one representative per token class, every string of <=3 (quick) / <=4 (thorough) chars over the keyword alphabet, the keyword neighbourhood, nesting families up to 256 chars; then random well-formed trees over boundary operands, token-level near-miss mutants and raw Unicode strings. Inputs containing '@' are run against the placeholder pool. distinct = distinct (evaluator,input,placeholder); non-trivial = the reference lexer yields >=2 tokens or the evaluator returned Ok. Oracle: the call returns Ok or Err (no panic; a process abort is detected by the supervisor).".into()
+        "Cases are (evaluator, input string, placeholder). Enumerated exhaustively: every sequence of <=3 pieces over each evaluator's complete vocabulary (+literal pool, foreign tokens), <=4 (quick) / <=5 (thorough) over one representative per token class, every string of <=3 (quick) / <=4 (thorough) chars over the keyword alphabet, the keyword neighbourhood, nesting families up to 256 chars; then aggregate stress lists (2..60 arguments repeating a few values that are equal or adjacent in one representation only: 2^53 / 2^53+1 / 2^53.0, 0 / 0.0 / -0.0 / NaN, 2 / 2.00), random well-formed trees over boundary operands, token-level near-miss mutants and raw Unicode strings. Inputs containing '@' are run against the placeholder pool. distinct = distinct (evaluator,input,placeholder); non-trivial = the reference lexer yields >=2 tokens or the evaluator returned Ok. Oracle: the call returns Ok or Err (no panic; a process abort is detected by the supervisor).".into()
     }
     fn assumptions(&self) -> Vec<String> {
         vec!["a step-budget hit (possible hang) is counted as excluded here and reported by C02".into(), "stack depth: shard threads have 16 MiB stacks".into()]
@@ -201,6 +201,7 @@ impl Prop for C01Prop {
         v.push(Sub { name: "tree", kind: SubKind::Random { cases: tier.pick(400_000, 20_000_000), len: 160 } });
         v.push(Sub { name: "mutant", kind: SubKind::Random { cases: tier.pick(400_000, 20_000_000), len: 160 } });
         v.push(Sub { name: "raw", kind: SubKind::Random { cases: tier.pick(300_000, 10_000_000), len: 120 } });
+        v.push(Sub { name: "agg-stress", kind: SubKind::Random { cases: tier.pick(150_000, 5_000_000), len: 120 } });
         v
     }
     fn gen_enum(&self, sub: &str, mut idx: u64, tier: Tier) -> Option<Case> {
@@ -239,6 +240,35 @@ impl Prop for C01Prop {
         let ev = Ev::ALL[c.below(5) as usize];
         let ph = pick_ph(ev, c);
         let s = match sub {
+            "agg-stress" => {
+                // 2..60 arguments drawn (with many repeats) from a handful of values that compare equal or adjacent in
+                // one representation but not in another: what a sort with an inconsistent comparator trips over
+                let groups: Vec<Vec<&str>> = match ev {
+                    Ev::I64 => vec![vec!["9223372036854775807", "9223372036854775806", "(-9223372036854775807-1)", "@"], vec!["0", "(-0)", "1", "@"]],
+                    Ev::Dec => vec![vec!["2", "2.00", "2.0", "@"], vec!["0", "(-0)", "0.00", "(-0.0)"], vec!["79228162514264337593543950335", "79228162514264337593543950334", "@"]],
+                    Ev::Cpx => return None,
+                    _ => vec![
+                        vec!["9007199254740992", "9007199254740993", "9007199254740992.0", "@"],
+                        vec!["9223372036854775807", "9223372036854775806", "9223372036854775808.0", "@"],
+                        vec!["0", "0.0", "(-0.0)", "(0/0)", "@"],
+                        vec!["1", "1.0", "(0/0)", "(-(0/0))", "@"],
+                        vec!["(1/0)", "(-1/0)", "(0/0)", "1", "@"],
+                    ],
+                };
+                let g = &groups[c.below(groups.len() as u32) as usize];
+                let fs = ["min", "max", "med", "median", "avg", "gcd", "lcm"];
+                let f = fs[c.below(fs.len() as u32) as usize];
+                if vocab::func(ev, f).is_none() {
+                    return None;
+                }
+                let n = match c.below(4) {
+                    0 => 2 + c.below(8),
+                    1 => 19 + c.below(6),
+                    _ => 21 + c.below(40),
+                } as usize;
+                let args: Vec<&str> = (0..n).map(|_| g[c.below(g.len() as u32) as usize]).collect();
+                format!("{}({})", f, args.join(","))
+            }
             "tree" => {
                 let p = tree_profile(ev);
                 grammar::render(&gen::gen_expr(&p, c, p.max_depth))
